@@ -19,6 +19,7 @@ import Cte.Model.Damage
 import Cte.Model.Bdl
 import Cte.Model.Convert
 import Cte.Model.Placement
+import Cte.Model.Origins
 import Cte.Model.HulcAux
 import Cte.Model.BdlData
 import Cte.Model.Pipeline
@@ -518,6 +519,16 @@ def opReveals (req : J) : J :=
     (PlaceIO.num w "h") (PlaceIO.num w "setback")
   J.obj [("reveals", J.arr (rs.map (fun r => J.arr (r.map (fun c => J.arr [J.ofRat c.x 6, J.ofRat c.y 6, J.ofRat c.z 6])))))]
 
+/-- op `origins`: the sample points of a window (`Place.rayOrigins`) -/
+def opOrigins (req : J) : J :=
+  let tr := (req.get? "trig").getD J.null
+  let pos := match (req.get? "position").map jnums with | some [a, b, c] => (⟨a, b, c⟩ : Vec3) | _ => ⟨0, 0, 0⟩
+  let v0 := match (req.get? "v0").map jnums with | some [a, b] => (a, b) | _ => (0, 0)
+  let w := (req.get? "window").getD J.null
+  let os := Place.rayOrigins pos (PlaceIO.ang tr "az") (PlaceIO.ang tr "t") (PlaceIO.ang tr "e") v0 (PlaceIO.num w "x") (PlaceIO.num w "y")
+    (PlaceIO.num w "w") (PlaceIO.num w "h") (PlaceIO.num w "setback")
+  J.obj [("origins", J.arr (os.map (fun c => J.arr [J.ofRat c.x 6, J.ofRat c.y 6, J.ofRat c.z 6])))]
+
 /-- op `occupancy`: yearly occupied time and mean internal load -/
 def opOccupancy (m : Model) : J :=
   J.obj [("hours_in_use", J.ofNat (hoursInUse m)), ("average_load", jr (averageLoad (Fns.approx 0) m)),
@@ -581,6 +592,7 @@ def handle (line : String) : String :=
       | some (J.str "skelconvert") => opSkelConvert req
       | some (J.str "placement") => opPlacement req
       | some (J.str "reveals") => opReveals req
+      | some (J.str "origins") => opOrigins req
       | some (J.str "kyg") => opKyg req
       | some (J.str "bdldata") => opBdlData req
       | some (J.str "verdict") => opVerdict req
